@@ -435,6 +435,9 @@ func (vc *VC) lockCall(fr *Frame, st *State, c *ssa.CallCommon, key string, pos 
 	if (strings.HasSuffix(key, ".Lock") || strings.HasSuffix(key, ".RLock")) && vc.topCon != nil && vc.topCon.Flags["interference"] && st.locks[id] == 0 {
 		vc.interfere(fr, st, c.Args[0])
 	}
+	if strings.HasSuffix(key, ".Lock") || strings.HasSuffix(key, ".RLock") {
+		vc.lockOrderCheck(fr, st, c.Args[0], id, pos)
+	}
 	switch key {
 	case "sync.Mutex.Lock", "sync.RWMutex.Lock":
 		st.locks[id] = 2
@@ -784,4 +787,62 @@ func accessPath(v ssa.Value) string {
 		}
 	}
 	return ""
+}
+
+// mutexTypeName: "pkgpath.Type.field" of a mutex operand that is the address of a struct field (embedded
+// mutexes included: the field is then named after its type, e.g. RWMutex).
+func mutexTypeName(muArg ssa.Value) string {
+	fa, ok := muArg.(*ssa.FieldAddr)
+	if !ok {
+		return ""
+	}
+	pt, _ := fa.X.Type().Underlying().(*types.Pointer)
+	if pt == nil {
+		return ""
+	}
+	stt, _ := pt.Elem().Underlying().(*types.Struct)
+	if stt == nil {
+		return ""
+	}
+	return typeKey(pt.Elem()) + "." + stt.Field(fa.Field).Name()
+}
+
+// lockOrderCheck (file-level `lockorder A.mu B.mu` declarations): acquiring an A.mu while a B.mu is held
+// inverts the declared order; with another goroutine following the declared order the two deadlock. One
+// obligation per acquisition that inverts a declared pair, failing outright.
+func (vc *VC) lockOrderCheck(fr *Frame, st *State, muArg ssa.Value, id string, pos token.Position) {
+	if vc.lockTypes == nil {
+		vc.lockTypes = map[string]string{}
+	}
+	tn := mutexTypeName(muArg)
+	if tn != "" {
+		vc.lockTypes[id] = tn
+	}
+	if tn == "" || len(vc.eng.cs.LockOrder) == 0 {
+		return
+	}
+	var held []string
+	for h, m := range st.locks {
+		if strings.HasPrefix(h, "#n:") || m == 0 || h == id {
+			continue
+		}
+		held = append(held, h)
+	}
+	sort.Strings(held)
+	for _, h := range held {
+		ht := vc.lockTypes[h]
+		for _, lo := range vc.eng.cs.LockOrder {
+			if lo[0] == tn && lo[1] == ht {
+				name := fmt.Sprintf("%s#lockorder:%s-while-holding-%s", funcKey(vc.topFn), id, h)
+				vc.oblige(st, "lockset", name, fmt.Sprintf("%s (%s) is acquired while %s (%s) is held, but the declared order is %s before %s", id, shortType(tn), h, shortType(ht), shortType(lo[0]), shortType(lo[1])), pos, "false")
+			}
+		}
+	}
+}
+
+func shortType(t string) string {
+	if i := strings.LastIndexByte(t, '/'); i >= 0 {
+		return t[i+1:]
+	}
+	return t
 }
